@@ -153,6 +153,38 @@ func c19Check(c *GCase, r *core.Rec) {
 			}
 		}
 	}
+	// Results already returned keep their value while the library is used further:
+	// other roots of the same graph, and graphs of n and n-1 nodes.
+	df1 := graphalg.DomFrontier(g, c.Root, nil)
+	dfKeep := copyAdj(df1)
+	for _, n2 := range []int{n, n - 1} {
+		if n2 < 1 {
+			continue
+		}
+		p := make(graph.IntGraph, n2)
+		for i := 0; i+1 < n2; i++ {
+			p[i] = []int{i + 1, 0}
+		}
+		pg := graph.MakeBiGraph(p)
+		graphalg.IDom(pg, 0)
+		graphalg.DomFrontier(pg, 0, nil)
+	}
+	r2 := (c.Root + 1) % n
+	graphalg.Dom(graphalg.IDom(g, r2))
+	graphalg.DomFrontier(g, r2, nil)
+	r.Trans(7)
+	if !equalInts(got, want) {
+		r.Fail("IDom-retained", "graph %v root %d: the slice returned by IDom reads %v after later calls, it was %v", adj, c.Root, got, want)
+	}
+	for v := 0; v < n; v++ {
+		if t.IDom(v) != want[v] {
+			r.Fail("Dom-retained", "graph %v root %d: DomTree.IDom(%d)=%d after later calls, was %d", adj, c.Root, v, t.IDom(v), want[v])
+			break
+		}
+	}
+	if !equalAdj(df1, dfKeep) {
+		r.Fail("DomFrontier-retained", "graph %v root %d: the frontier table reads %v after later calls, it was %v", adj, c.Root, df1, dfKeep)
+	}
 }
 
 func c19Run(c *core.Ctx) {
